@@ -589,7 +589,7 @@ impl World {
         let mut w = self.wire.borrow_mut();
         let was = w.gate_closed;
         w.gate_closed = closed;
-        if was && !closed && (w.unread() > 0 || w.eof || w.read_err) {
+        if was && !closed && (w.unread() > 0 || w.eof || w.read_err || w.read_err_once.is_some()) {
             w.wake_reader();
         }
     }
